@@ -150,13 +150,227 @@ def apply_pat(toks, pat, rep):
     return out, count
 
 
-def apply(name, toks):
+def apply(name, toks, ctx=None):
     if name not in RULES:
         raise KeyError("unknown rewrite rule %s" % name)
     kind, a, b, doc = RULES[name]
     if kind == "pat":
         return apply_pat(toks, a, b)
+    if kind == "pyctx":
+        return a(toks, ctx or {})
     return a(toks)
+
+
+def pyctxrule(name, fn, doc):
+    RULES[name] = ("pyctx", fn, None, doc)
+
+
+def T(texts, line):
+    out = []
+    for tx in texts.split():
+        kind = "id" if (tx[0].isalpha() or tx[0] == "_") else ("num" if tx[0].isdigit() else "punct")
+        out.append(Tok(kind, tx, line, sp=True))
+    return out
+
+
+def clone(toks, line=None):
+    return [Tok(t.kind, t.text, t.line if line is None else line, True) for t in toks]
+
+
+# ---- D7: expansion of local macro_rules! (single arm, $x:ident / $x:path / $x:expr / $x:pat fragments)
+def parse_macros(file_toks):
+    macros = {}
+    i = 0
+    n = len(file_toks)
+    while i < n:
+        t = file_toks[i]
+        if t.kind == "id" and t.text == "macro_rules" and i + 3 < n and file_toks[i + 1].text == "!":
+            name = file_toks[i + 2].text
+            o = i + 3
+            c = match_close(file_toks, o)
+            body = file_toks[o + 1:c]
+            # single arm: ( params ) => { expansion } ;
+            if body and body[0].text == "(":
+                pe = match_close(body, 0)
+                params = []
+                k = 1
+                while k < pe:
+                    if body[k].text == "$" and k + 3 <= pe and body[k + 2].text == ":":
+                        params.append(body[k + 1].text)
+                        k += 4
+                    else:
+                        k += 1
+                k = pe + 1
+                if k < len(body) and body[k].text == "=>":
+                    bo = k + 1
+                    be = match_close(body, bo)
+                    rest = [x for x in body[be + 1:] if x.text != ";"]
+                    if not rest and name not in macros:
+                        macros[name] = (params, body[bo + 1:be])
+            i = c + 1
+            continue
+        i += 1
+    return macros
+
+
+def expand_macros(toks, ctx):
+    macros = ctx.get("macros")
+    if macros is None:
+        macros = parse_macros(ctx.get("file_toks", []))
+        ctx["macros"] = macros
+    out = list(toks)
+    count = 0
+    i = 0
+    while i < len(out):
+        t = out[i]
+        if t.kind == "id" and t.text in macros and i + 2 < len(out) and out[i + 1].text == "!" and out[i + 2].text in ("(", "[", "{"):
+            e = match_close(out, i + 2)
+            args = []
+            cur = []
+            k = i + 3
+            while k < e:
+                tk = out[k]
+                if tk.kind == "punct" and tk.text in OPEN:
+                    c2 = match_close(out, k)
+                    cur.extend(out[k:c2 + 1])
+                    k = c2 + 1
+                    continue
+                if tk.kind == "punct" and tk.text == ",":
+                    args.append(cur)
+                    cur = []
+                else:
+                    cur.append(tk)
+                k += 1
+            if cur:
+                args.append(cur)
+            params, body = macros[t.text]
+            if len(args) != len(params):
+                i += 1
+                continue
+            bind = dict(zip(params, args))
+            new = []
+            k = 0
+            while k < len(body):
+                if body[k].text == "$" and k + 1 < len(body) and body[k + 1].text in bind:
+                    new.extend(clone(bind[body[k + 1].text], t.line))
+                    k += 2
+                else:
+                    new.append(Tok(body[k].kind, body[k].text, t.line, True))
+                    k += 1
+            out[i:e + 1] = new
+            count += 1
+            continue      # re-scan the expansion (nested macros)
+        i += 1
+    return out, count
+
+
+def fn_parts(toks):
+    """indices: (fn keyword, body open, body close, ret type tokens or None)"""
+    i = 0
+    while i < len(toks) and not (toks[i].kind == "id" and toks[i].text == "fn"):
+        i += 1
+    j = i
+    arrow = None
+    while j < len(toks):
+        t = toks[j]
+        if t.kind == "punct":
+            if t.text in ("(", "["):
+                j = match_close(toks, j)
+            elif t.text == "->":
+                arrow = j
+            elif t.text == "{":
+                break
+        j += 1
+    if j >= len(toks):
+        return None
+    ret = toks[arrow + 1:j] if arrow is not None else None
+    return i, j, match_close(toks, j), ret
+
+
+def find_chain(toks, lo, hi, method):
+    """find `RECV . iter ( ) . METHOD ( | V | BODY )` inside toks[lo:hi]; returns
+    (recv_start, recv_end(excl), var tokens, body tokens, index after the closing paren) or None"""
+    i = lo
+    while i < hi:
+        if (toks[i].text == "." and i + 6 < hi and toks[i + 1].text == "iter" and toks[i + 2].text == "(" and toks[i + 3].text == ")"
+                and toks[i + 4].text == "." and toks[i + 5].text == method and toks[i + 6].text == "("):
+            close = match_close(toks, i + 6)
+            inner = toks[i + 7:close]
+            if inner and inner[0].text == "|":
+                k = 1
+                while k < len(inner) and inner[k].text != "|":
+                    k += 1
+                var = inner[1:k]
+                body = inner[k + 1:]
+                rs = recv_start(toks, i)
+                return rs, i, var, body, close + 1
+        i += 1
+    return None
+
+
+def strip_amp_pat(var):
+    return var
+
+
+def loop_rule(method, tail_kind):
+    """tail_kind: 'collect' (.collect()), 'count_gt0' (.count() > 0), 'none' (find_map)"""
+    def f(toks):
+        parts = fn_parts(toks)
+        if parts is None:
+            return toks, 0
+        fi, bo, bc, ret = parts
+        ch = find_chain(toks, bo + 1, bc, method)
+        if ch is None:
+            return toks, 0
+        rs, re_, var, body, after = ch
+        line = toks[rs].line
+        recv = toks[rs:re_]
+        # what follows the chain
+        rest = toks[after:bc]
+        rt = [t.text for t in rest]
+        if tail_kind == "collect":
+            if rt[:4] != [".", "collect", "(", ")"] or len(rt) != 4:
+                return toks, 0
+        elif tail_kind == "count_gt0":
+            if rt[:6] != [".", "count", "(", ")", ">", "0"] or len(rt) != 6:
+                return toks, 0
+        else:
+            if rt:
+                return toks, 0
+        new = []
+        V = clone(var, line)
+        R = lambda: clone(recv, line)
+        B = lambda: clone(body, line)
+        if tail_kind == "collect" and method == "filter_map":
+            new += T("let mut __out :", line) + clone(ret, line) + T("= Vec :: new ( ) ;", line)
+            new += T("for __i in 0 ..", line) + R() + T(". len ( ) {", line)
+            new += T("let", line) + V + T("= &", line) + R() + T("[ __i ] ;", line)
+            new += T("let __r =", line) + B() + T(";", line)
+            new += T("if let Some ( __x ) = __r { __out . push ( __x ) ; }", line)
+            new += T("}", line) + T("__out", line)
+        elif tail_kind == "collect" and method == "filter":
+            new += T("let mut __out :", line) + clone(ret, line) + T("= Vec :: new ( ) ;", line)
+            new += T("for __i in 0 ..", line) + R() + T(". len ( ) {", line)
+            new += T("let", line) + V + T("= &", line) + R() + T("[ __i ] ;", line)
+            new += T("let __keep =", line) + B() + T(";", line)
+            new += T("if __keep { __out . push (", line) + V + T(") ; }", line)
+            new += T("}", line) + T("__out", line)
+        elif tail_kind == "count_gt0":
+            new += T("let mut __any = false ;", line)
+            new += T("for __i in 0 ..", line) + R() + T(". len ( ) {", line)
+            new += T("let", line) + V + T("= &", line) + R() + T("[ __i ] ;", line)
+            new += T("let __keep =", line) + B() + T(";", line)
+            new += T("if __keep { __any = true ; }", line)
+            new += T("}", line) + T("__any", line)
+        else:  # find_map
+            new += T("for __i in 0 ..", line) + R() + T(". len ( ) {", line)
+            new += T("let", line) + V + T("= &", line) + R() + T("[ __i ] ;", line)
+            new += T("let __r =", line) + B() + T(";", line)
+            new += T("if __r . is_some ( ) { return __r ; }", line)
+            new += T("}", line) + T("None", line)
+        out = toks[:rs] + new + toks[bc:]
+        return out, 1
+    return f
 
 
 def drop_attrs(names):
@@ -180,6 +394,24 @@ def drop_attrs(names):
 # ---------------------------------------------------------------------------
 # rule catalogue
 # ---------------------------------------------------------------------------
+pyctxrule("D7.expand_macros", expand_macros,
+          "local single-arm macro_rules! (ident/path/expr fragments) are expanded textually at the call site")
+pyrule("D2.filter_map_collect", loop_rule("filter_map", "collect"),
+       "tail `E.iter().filter_map(|v| BODY).collect()` -> indexed loop pushing the Some results (closure body inlined; captured `mut` locals stay the same locals)")
+pyrule("D3.filter_collect", loop_rule("filter", "collect"),
+       "tail `E.iter().filter(|v| BODY).collect()` -> indexed loop pushing v when BODY")
+pyrule("D3.filter_count_gt0", loop_rule("filter", "count_gt0"),
+       "tail `E.iter().filter(|v| BODY).count() > 0` -> indexed loop setting a flag when BODY (count() > 0 iff some element satisfies BODY)")
+pyrule("D4.find_map", loop_rule("find_map", "none"),
+       "tail `E.iter().find_map(|v| BODY)` -> indexed loop returning the first Some")
+rule("D7.matches_macro",
+     "matches ! ( $e:id , $(p) )",
+     "( match $e { $(p) => true , _ => false } )",
+     "std matches!(e, PAT) written out")
+rule("D1.enumerate",
+     "for ( $i:id , $x:id ) in $(e) . iter ( ) . enumerate ( ) {",
+     "for $i in 0 .. $(e) . len ( ) { let $x = & $(e) [ $i ] ;",
+     "for (i, x) in E.iter().enumerate() -> indexed loop (definition of enumerate on slices)")
 pyrule("D12.drop_thiserror_attrs", drop_attrs({"error", "from", "source"}),
        "thiserror helper attributes inside an error enum (#[error(..)], #[from]) are dropped; the From impls are written out")
 pyrule("D12.drop_serde_attrs", drop_attrs({"serde", "serde_as", "cfg_attr"}),
@@ -274,6 +506,26 @@ rule("D6.eq_self_field_str",
      "self . $f:id == $b:id",
      "shim_string_eq_str ( & self . $f , $b )",
      "<String as PartialEq<&str>>::eq (vstd specifies only &str == &str)")
+
+rule("D6.os_push_lit",
+     "path . push ( $l:str )",
+     "shim_os_push_str ( & mut path , $l )",
+     "OsString::push(&str literal)")
+
+rule("D6.os_push_var",
+     "path . push ( $x:id )",
+     "shim_os_push ( & mut path , $x )",
+     "OsString::push(&OsString)")
+
+rule("D6.os_lossy_ends_with_slash",
+     "$recv . to_string_lossy ( ) . ends_with ( '/' )",
+     "shim_os_ends_with_slash ( & $recv )",
+     "OsString::to_string_lossy().ends_with('/')")
+
+rule("D6.os_to_os_string",
+     "$recv . to_os_string ( )",
+     "shim_os_clone ( $recv )",
+     "OsString (deref OsStr)::to_os_string(): an owned copy")
 
 rule("D6.take_digits",
      "$recv . chars ( ) . take_while ( char :: is_ascii_digit ) . collect ( )",
